@@ -7,6 +7,7 @@
    and answer wet offers with wet remainders (tank-backed ends do). *)
 From Coq Require Import QArith Qminmax List Bool Arith.
 From WSI Require Import Vqip Pow Tank Arc QTank Distrib Run TankLaws ArcLaws QueueLaws DistribLaws.
+From WSI Require Kinds Leak LeakLaws Refuted.
 Import ListNotations.
 Open Scope Q_scope.
 
@@ -66,3 +67,18 @@ Print Assumptions C18_shares_are_proportional_and_bounded.
 Example C18_tanks_meet_the_hypotheses : wet_answers (nb * nb) nbport tank_contract.
 Proof. exact tank_wet_replies. Qed.
 Print Assumptions C18_tanks_meet_the_hypotheses.
+
+(* a Distribution with leakage (coq/Leak.v, tied by family leak): a pull addressed to it hands the consumer at most what
+   was asked whenever the leaked share is placed; otherwise exactly the unplaced leak comes on top - the recorded open
+   finding, with its witness in the model (Refuted.v) replayed on the implementation on every run *)
+Theorem C18_distribution_pull_within_request_when_the_leak_is_placed :
+  forall S (P : port S) (K : contract S P) maxiter (n n' : Leak.dnode S) q r,
+  star_ok S P K (Leak.dn_ins S n) -> 0 <= q -> 0 <= Leak.dn_leak S n < 1 ->
+  Leak.dn_pull_set S P maxiter n q = Some (n', r) ->
+  vol r <= q \/ exists unplaced, eps < vol unplaced /\ q < vol r <= q + vol unplaced.
+Proof. exact LeakLaws.dn_pull_within_request_when_placed. Qed.
+Print Assumptions C18_distribution_pull_within_request_when_the_leak_is_placed.
+Example C18_refuted_leak_bounced_to_consumer :
+  match Leak.dn_pull_set _ nbport 5 Refuted.w_leak_node (9#1) with Some (_, r) => vol r == 19#2 | None => False end.
+Proof. exact Refuted.C18_refuted_leak_bounced_to_consumer. Qed.
+Print Assumptions C18_refuted_leak_bounced_to_consumer.
